@@ -16,6 +16,9 @@ macro_rules! properties {
             })
         }
         pub fn replay(ctx: &Ctx, kind: &str, case: &Value) -> Option<Vec<Failure>> {
+            if kind.starts_with("fuzz:") {
+                return crate::fuzzing::replay(ctx, kind, case);
+            }
             Some(match ctx.id.as_str() {
                 $($id => $m::replay(ctx, kind, case),)*
                 _ => return None,
